@@ -279,12 +279,121 @@ def verify_function_parse(run):
     run.add(static(f"{fq}/returns", n_ret > 0, f"{n_ret} returning path(s)", fn=fq))
 
 
+# ------------------------------------------------------------------------------------------------ Function.Node.evaluate (recursion contract)
+def verify_node_evaluate(run):
+    from pyvc.heap import (HeapExec, HPath, Contract, Ref, Str, NONE, XR, RefV, StrV, Schema, strc, str_distinct, canon, xr2x, x2xr)
+    from pyvc.hlib import init_heap, emit
+    from props import C16
+    src = run.src
+    fq = "term.Function.Node.evaluate"
+    fn = src.func("term", "Function.Node.evaluate")
+    run.under_contract("term", "Function.Node.evaluate", fn)
+    NODE = "Function.Node"
+    sc = Schema(src, {f"{NODE}.element": "str", f"{NODE}.variable": "str", f"{NODE}.constant": "num", f"{NODE}.left": f"ref:{NODE}", f"{NODE}.right": f"ref:{NODE}"}, [NODE])
+    H0 = init_heap(sc)
+    EMPTY = strc("")
+    ar = C16.el_arity
+    ap0 = z3.Function("apply0", Str, XR); ap1 = z3.Function("apply1", Str, XR, XR); ap2 = z3.Function("apply2", Str, XR, XR, XR)      # element.method(...)
+    d_has = z3.Function("vars_has", Str, z3.BoolSort()); d_get = z3.Function("vars_get", Str, XR); d_nonempty = z3.Bool("vars_nonempty")
+    val = z3.Function("value_of_tree", Ref, XR)          # ghost: the documented value of the tree (defined by recursion on the finite tree)
+    okv = z3.Function("evaluable", Ref, z3.BoolSort())   # ghost: every operator has the operands its arity needs, every variable has a value
+    height = z3.Function("height", Ref, z3.IntSort())
+    self_ = z3.Const("self", Ref)
+    E, V, K, L, R = (H0[f"{NODE}.{f}"] for f in ("element", "variable", "constant", "left", "right"))
+
+    def unfold(n, with_map):
+        """defining equations of the ghost functions at node n (the statement: operator/function applied to (left, right) in that order, a
+        unary element to its only child, a variable looked up in the map, otherwise the constant)"""
+        e, l, r = E[n], L[n], R[n]
+        child = z3.If(l != NONE, l, r)
+        has = z3.And(d_nonempty, d_has(V[n])) if with_map else z3.BoolVal(False)
+        v = z3.If(e != EMPTY, z3.If(ar(e) == 0, ap0(e), z3.If(ar(e) == 1, ap1(e, val(child)), z3.If(ar(e) == 2, ap2(e, val(l), val(r)), x2xr(xr.const(float("nan")))))),
+                  z3.If(V[n] != EMPTY, d_get(V[n]), K[n]))
+        o = z3.If(e != EMPTY, z3.If(ar(e) == 1, z3.And(child != NONE, okv(child)), z3.If(ar(e) == 2, z3.And(l != NONE, r != NONE, okv(l), okv(r)), z3.BoolVal(True))),
+                  z3.If(V[n] != EMPTY, has, z3.BoolVal(True)))
+        return [val(n) == v, okv(n) == o]
+
+    class DictA:
+        pass
+
+    class EvalContract(Contract):
+        def call(s, ex, p, recv, args, kwargs, node):
+            ex.oblige(f"decreases/line{node.lineno - ex.fn_line}:the recursive call is on a child (smaller height)", p, z3.And(recv.r != NONE, height(recv.r) < height(self_), height(recv.r) >= 0))
+            q = p.fork(); q.pc.append(z3.Not(okv(recv.r))); ex.raised.append((q, "ValueError"))
+            p.pc += [okv(recv.r), canon(val(recv.r))]
+            return Num(xr2x(val(recv.r)), True, False)
+
+    class EvalExec(HeapExec):
+        def ev_Attribute(s, p, e):
+            if ast.unparse(e) == "self.element.arity":
+                el = s.ev(p, e.value)
+                s.oblige(f"safety/line{e.lineno - s.fn_line}:attribute `arity` of None", p, el.t != EMPTY)
+                return Num(X_(z3.ToReal(ar(el.t))), False, True, True)
+            return super().ev_Attribute(p, e)
+
+        def method_call(s, p, recv, meth, args, kwargs, node):
+            if isinstance(recv, StrV) and meth == "method":
+                s.oblige(f"safety/line{node.lineno - s.fn_line}:call `.method` on None", p, recv.t != EMPTY)
+                xs = [x2xr(s.num(a, node).x) for a in args]
+                t = ap0(recv.t) if not xs else ap1(recv.t, xs[0]) if len(xs) == 1 else ap2(recv.t, xs[0], xs[1])
+                p.pc.append(canon(t))
+                return Num(xr2x(t), True, False)
+            if isinstance(recv, RefV) and meth == "evaluate":
+                return EvalContract().call(s, p, recv, args, kwargs, node)
+            return super().method_call(p, recv, meth, args, kwargs, node)
+
+        def truth(s, v, node, p=None):
+            if isinstance(v, DictA):
+                return d_nonempty
+            return super().truth(v, node, p)
+
+        def contains(s, p, item, coll, e):
+            if isinstance(coll, DictA):
+                return d_has(s.unwrap("str", item))
+            return super().contains(p, item, coll, e)
+
+        def ev_Subscript(s, p, e):
+            base = s.ev(p, e.value)
+            if isinstance(base, DictA):
+                k = s.unwrap("str", s.ev(p, e.slice))
+                s.oblige(f"safety/line{e.lineno - s.fn_line}:key present (no KeyError)", p, z3.And(d_nonempty, d_has(k)))
+                p.pc.append(canon(d_get(k)))
+                return Num(xr2x(d_get(k)), True, False)
+            return super().ev_Subscript(p, e)
+
+        def ev_Call(s, p, e):
+            if isinstance(e.func, ast.Name) and e.func.id == "scalar" and len(e.args) == 1:
+                return s.num(s.ev(p, e.args[0]), e)
+            return super().ev_Call(p, e)
+
+    X_ = lambda v: xr.X(xr.F, xr.I0, v)
+    for mode in ("with_variables", "without_variables"):
+        ex = EvalExec(src, "term", sc, contracts={}, interfaces={}, inline=set(), loops={}, fnname=fq)
+        wm = mode == "with_variables"
+        l, r = L[self_], R[self_]
+        t_ = z3.Const("t", Str)
+        pre = [self_ != NONE, height(self_) >= 0,
+               z3.Implies(l != NONE, z3.And(height(l) >= 0, height(l) < height(self_))), z3.Implies(r != NONE, z3.And(height(r) >= 0, height(r) < height(self_))),
+               z3.ForAll([t_], z3.Implies(d_has(t_), d_nonempty)),
+               # trees come from Function.parse, whose proved postcondition (postfix_ordered) gives a unary element exactly one child
+               z3.Implies(z3.And(E[self_] != EMPTY, ar(E[self_]) == 1), z3.Or(l == NONE, r == NONE))] + unfold(self_, wm)
+        outs = ex.run_fn(fn, HPath({"self": RefV(self_, NODE), "local_variables": DictA() if wm else None}, pre, H0))
+        emit(run, ex, f"{fq}[{mode}]", [], RP_FORM)
+        for i, (kind, v, q) in enumerate(outs):
+            tag = f"[{mode}][path{i}]"
+            if kind == "raise":
+                run.add(Obl(f"{fq}/raises_ValueError_only_when_not_evaluable{tag}", q.pc + str_distinct(), z3.And(z3.BoolVal(v == "ValueError"), z3.Not(okv(self_))), fn=fq, meta={"replay": RP_FORM}))
+            else:
+                run.add(Obl(f"{fq}/ensures.value_of_the_tree{tag}", q.pc + str_distinct(), z3.And(okv(self_), x2xr(ex.num(v).x) == val(self_)), fn=fq, meta={"replay": RP_FORM}))
+        run.add(static(f"{fq}/writes_nothing[{mode}]", not ex.writes, f"heap fields written: {sorted(ex.writes)}", fn=fq))
+
+
 def build(run):
     run.assume("A-REAL", "A-NP", "A-PY", "A-LIFT", "A-STR", "A-MSG", "A-LOG")
     from props import C16
     plan = [("factory.FunctionFactory._create_operators", verify_table), ("factory.FunctionFactory._create_functions", verify_functions),
             ("operation.Op.relational", verify_relational), ("term.Function.infix_to_postfix", C16.verify_infix_to_postfix),
-            ("term.Function.parse", verify_function_parse)]
+            ("term.Function.parse", verify_function_parse), ("term.Function.Node.evaluate", verify_node_evaluate)]
     for fq, f in plan:
         try:
             f(run)
